@@ -678,6 +678,143 @@ def rawsig_strategy(tier: str):
 
 
 # --------------------------------------------------------------------------
+# family sksig: security-key signatures (PROTOCOL.u2f), verification only
+#
+#   public key   string alg, [string "nistp256",] string Q, string application
+#   signature    string alg, string sig, byte flags, uint32 counter
+#   signed data  SHA256(application) || flags || counter || SHA256(message)
+#
+# The reference plays the authenticator (software keys derived from the case)
+# - asyncssh itself cannot sign without a device, so only its verifier is
+# under test: the flags and the counter are part of what was signed, and the
+# application is part of the key.
+
+SK_KT = {'sk-p256': ('p256', 'sk-ecdsa-sha2-nistp256@openssh.com'),
+         'sk-ed25519': ('ed25519', 'sk-ssh-ed25519@openssh.com')}
+SK_APPS = ['ssh:', 'ssh:work', 'ssh:\u00fc', '', 'ssh:' + 'a' * 70]
+
+
+def sk_pub_blob(base: RefKey, alg: str, app: str) -> bytes:
+    return sstr(alg) + base.key_fields + sstr(app.encode('utf-8'))
+
+
+def sk_sign(base: RefKey, alg: str, app: str, flags: int, counter: int,
+            msg: bytes) -> bytes:
+    signed = hashlib.sha256(app.encode('utf-8')).digest() + bytes([flags]) + \
+        u32(counter) + hashlib.sha256(msg).digest()
+    raw = base.ref_sign_raw(base.alg, signed)
+    return sstr(alg) + sstr(raw) + bytes([flags]) + u32(counter)
+
+
+def run_sksig(case) -> CaseResult:
+    kt, seed, msg = case['kt'], case['seed'], case['msg']
+    app, flags, counter = case['app'], case['flags'], case['counter']
+    ma, mb = case['mask']
+    base_kt, alg = SK_KT[kt]
+    base = refkey(base_kt, seed)
+    labels = {'kt:' + kt, 'flags:0x%02x' % flags}
+
+    def a_pub(b: RefKey, application: str):
+        key = asyncssh.import_public_key(
+            alg.encode() + b' ' + base64.b64encode(
+                sk_pub_blob(b, alg, application)))
+        # what the server does with the key of an authorized_keys entry
+        # (True unless the entry says no-touch-required)
+        key.set_touch_required(case['touch'])
+        return key
+
+    pub = a_pub(base, app)
+    sig = sk_sign(base, alg, app, flags, counter, msg)
+    got = pub.verify(msg, sig)
+
+    if case['touch']:
+        labels.add('touch-required')
+
+    if case['touch'] and not flags & 1:
+        # the authenticator did not attest that somebody touched it:
+        # refused, altered or not
+        labels.add('no-user-presence')
+        must_be_false(got, 'untouched-accepted', 'signature without the '
+                      'user-presence flag verifies', 'sk-untouched:' + kt)
+        return CaseResult(sorted(labels), True)
+
+    if got is not True:
+        raise Violation('valid-rejected', 'asyncssh rejects a genuine %s '
+                        'signature (flags 0x%02x, counter %d, application '
+                        '%r)' % (alg, flags, counter, app),
+                        'sk-valid-rejected:' + kt)
+
+    if flags & ~1:
+        labels.add('flags-beyond-user-presence')
+
+    # every single-byte edit of the blob; all 255 values at the flags byte
+    # and every bit of the counter
+    ftail = len(sig) - 5
+    regions = sig_regions(sig)[:ftail] + ['flags'] + ['counter'] * 4
+    edits = [(pos, mask_at(pos, ma, mb)) for pos in range(len(sig))]
+    edits += [(ftail, m) for m in range(1, 256)]
+    edits += [(ftail + 1 + i, 1 << b) for i in range(4) for b in range(8)]
+
+    for pos, mask in edits:
+        must_be_false(pub.verify(msg, xor_at(sig, pos, mask)),
+                      'sig-edit-accepted',
+                      '%s signature (flags 0x%02x, counter %d) verifies '
+                      'after byte %d ^= 0x%02x (region %s)' %
+                      (alg, flags, counter, pos, mask, regions[pos]),
+                      'sk-sig-edit:%s:%s' % (kt, regions[pos]))
+
+    labels.add('byte-edits')
+    extra = bytes([case['extra']])
+
+    for what, blob in (('drop-last', sig[:-1]), ('drop-counter', sig[:-4]),
+                       ('drop-tail', sig[:-5]), ('append', sig + extra),
+                       ('append-string', sig + sstr(b'')), ('empty', b'')):
+        must_be_false(pub.verify(msg, blob), 'sig-resize-accepted',
+                      '%s signature verifies after %s' % (alg, what),
+                      'sk-sig-resize:%s:%s' % (kt, what))
+
+    labels.add('resize')
+
+    # the application belongs to the key
+    for oapp in SK_APPS:
+        if oapp != app:
+            must_be_false(a_pub(base, oapp).verify(msg, sig),
+                          'other-key-accepted', 'signature for application '
+                          '%r verifies under the same key bound to %r' %
+                          (app, oapp), 'sk-other-application:' + kt)
+
+    labels.add('other-application')
+    must_be_false(a_pub(refkey(base_kt, seed + 1), app).verify(msg, sig),
+                  'other-key-accepted', 'signature verifies under another '
+                  'key', 'sk-other-key:' + kt)
+    # the same key material as a plain (non-sk) key must not take it either
+    must_be_false(base.a_pub.verify(msg, sig), 'other-key-accepted',
+                  'sk signature verifies under the plain key',
+                  'sk-plain-key:' + kt)
+
+    for om in (msg + extra, msg[:-1] if msg else b'\x00', b''):
+        if om != msg:
+            must_be_false(pub.verify(om, sig), 'other-msg-accepted',
+                          'signature verifies for another message',
+                          'sk-other-msg:' + kt)
+
+    return CaseResult(sorted(labels), True)
+
+
+def sksig_strategy(tier: str):
+    return st.fixed_dictionaries({
+        'kt': pick(sorted(SK_KT)), 'seed': st.integers(0, NSEEDS - 1),
+        'msg': st.one_of(st.binary(max_size=64), pick([b'', b'\x00'])),
+        'app': pick(SK_APPS), 'touch': pick([True, True, False]),
+        'flags': st.one_of(pick([1, 1, 5, 0x21, 0x45, 0xff, 0, 4]),
+                           st.integers(0, 255)),
+        'counter': st.one_of(pick([0, 1, 2 ** 31, 2 ** 32 - 1]),
+                             st.integers(0, 2 ** 32 - 1)),
+        'mask': st.tuples(st.integers(0, 254), st.integers(0, 254)).map(list),
+        'extra': st.integers(0, 255)})
+
+
+# --------------------------------------------------------------------------
 # certificates: reference encoder / decoder / predicate
 
 ANY, USER, HOST = 0, 1, 2
@@ -2537,6 +2674,12 @@ FAMILIES = [
                      ['alg:' + a for a in RSA_SIG] +
                      ['alias-swap', 'msg-empty', 'msg-long', 'byte-edits',
                       'alg-swap', 'other-key', 'other-msg', 'resize']}),
+    Family('sksig', run_sksig, strategy=sksig_strategy,
+           budget={'quick': 120, 'thorough': 3000},
+           required={'all': ['kt:sk-p256', 'kt:sk-ed25519', 'byte-edits',
+                             'no-user-presence', 'resize', 'touch-required',
+                             'flags-beyond-user-presence',
+                             'other-application']}),
     Family('cert-model', run_cert_model, strategy=cert_model_strategy,
            budget={'quick': 400, 'thorough': 12000},
            required={'all': ['builder:api', 'builder:ref', 'import:ok',
